@@ -100,3 +100,69 @@ pub fn hwm(seed: u64, cases: u64, st: &mut Stats, drv: &mut Drv) {
         if case < 2 { st.sample(format!("hwm: {}", log.join(" ; "))); }
     }
 }
+
+/// I-A `bigblob`: blob files beyond 2^24 bytes (where f32 arithmetic no longer distinguishes neighbouring byte counts):
+/// one huge value and one tiny value share a blob file, the huge one is overwritten and collected; the file is then
+/// ALMOST entirely garbage but not dead, so it must stay (or be relocated) and the tiny value must stay readable, its
+/// garbage statistics must be exact and `stale_blob_bytes` must report them. Oracle only (sizes are parameters, not logic).
+pub fn bigblob(seed: u64, cases: u64, st: &mut Stats) {
+    let mut rng = Rng::new(seed ^ 0x6269_6762);
+    for case in 0..cases.max(1) {
+        // sizes at which `huge` and `huge + tiny` round to the same f32 (spacing 2 above 2^24, 4 above 2^25), and some that do not
+        let (huge, tiny) = match case % 6 {
+            0 => (20_000_000usize, 1usize),
+            1 => ((1 << 25) + 4, 2),
+            2 => ((1 << 24) + 2, 1),
+            3 => (17_000_000, 1),
+            4 => ((1 << 25) + 8, 1),
+            _ => (*rng.pick(&[(1usize << 24) + 1, 17_000_001, 20_000_003]), 1 + rng.below(3) as usize),
+        };
+        let r = std::panic::catch_unwind(std::panic::AssertUnwindSafe(|| -> Result<(), String> {
+            let dir = tempfile::tempdir_in(crate::scratch_root()).unwrap();
+            let seqno = SequenceNumberCounter::default();
+            let tree = Config::new(dir.path(), seqno.clone(), SequenceNumberCounter::default())
+                .with_kv_separation(Some(lsm_tree::KvSeparationOptions::default().separation_threshold(1).file_target_size(1 << 30).staleness_threshold(0.9).age_cutoff(1.0).compression(lsm_tree::CompressionType::None)))
+                .open()
+                .map_err(|e| format!("open: {e:?}"))?;
+            let e = |x: lsm_tree::Error| format!("{x:?}");
+            tree.insert("big", vec![b'B'; huge], seqno.next());
+            tree.insert("tiny", vec![b't'; tiny], seqno.next());
+            tree.flush_active_memtable(0).map_err(e)?;
+            tree.insert("big", vec![b'b'; 2], seqno.next());
+            tree.flush_active_memtable(0).map_err(e)?;
+            // collects big@0: the first blob file is now `huge` bytes of garbage and `tiny` live bytes
+            tree.major_compact(u64::MAX, seqno.get()).map_err(e)?;
+            let stale = tree.stale_blob_bytes();
+            if stale != huge as u64 && stale != 0 {
+                return Err(format!("stale_blob_bytes = {stale} after collecting one blob of {huge} bytes (0 if the file was rewritten)"));
+            }
+            // the next compaction decides about that blob file (dead? stale enough to rewrite?)
+            tree.insert("other", vec![b'o'; 3], seqno.next());
+            tree.flush_active_memtable(0).map_err(e)?;
+            tree.major_compact(u64::MAX, seqno.get()).map_err(e)?;
+            for (k, want) in [("tiny", vec![b't'; tiny]), ("big", vec![b'b'; 2]), ("other", vec![b'o'; 3])] {
+                let got = tree.get(k, lsm_tree::SeqNo::MAX).map_err(e)?;
+                if got.as_deref() != Some(&want[..]) {
+                    return Err(format!("get({k}) = {:?} bytes, expected {} bytes", got.map(|v| v.len()), want.len()));
+                }
+            }
+            drop(tree);
+            let t2 = Config::new(dir.path(), seqno.clone(), SequenceNumberCounter::default())
+                .with_kv_separation(Some(lsm_tree::KvSeparationOptions::default().separation_threshold(1)))
+                .open()
+                .map_err(|e| format!("reopen: {e:?}"))?;
+            if t2.get("tiny", lsm_tree::SeqNo::MAX).map_err(e)?.as_deref() != Some(&vec![b't'; tiny][..]) {
+                return Err("get(tiny) differs after reopen".into());
+            }
+            Ok(())
+        }));
+        st.evaluations += 1;
+        st.nontrivial_case(&format!("{huge}/{tiny}"));
+        st.count(&format!("bigblob.huge={huge}"));
+        match r {
+            Ok(Ok(())) => {}
+            Ok(Err(m)) => st.oracle_failures.push(format!("C09 bigblob case {case}: a blob file holding one {huge}-byte blob (garbage) and one {tiny}-byte blob (live): {m}")),
+            Err(p) => st.oracle_failures.push(format!("C09 bigblob case {case}: a blob file holding one {huge}-byte blob (garbage) and one {tiny}-byte blob (live): panic: {}", p.downcast_ref::<String>().cloned().or_else(|| p.downcast_ref::<&str>().map(|s| s.to_string())).unwrap_or_default())),
+        }
+    }
+}
